@@ -16,6 +16,7 @@ CHECKS = {
     "C06": (checks_types.run, "model_checking"),
     "C05": (checks_problem.run, "model_checking"),
     "C01": (checks_domain.run_c01, "model_checking"),
+    "C20": (checks_core.run_c20, "model_checking"),
     "C04": (checks_hist.run_c04, "model_checking"),
     "C08": (checks_domain.run_c08, "translation_validation"),
     "C09": (checks_domain.run_c09, "model_checking"),
@@ -127,6 +128,14 @@ META["C09"] = {
                  "library re-parse judged by ParseProblem",
     "text": "Each problem is parsed, exported, read by the specification from the exported text and compared field by field "
             "with the source; the library's re-parse of the text is judged like any other problem parse, and exported again."}
+META["C20"] = {
+    "engine": "G+V(+M)", "design_ref": "DESIGN.md section 6 (C20)", "note": CORE_NOTE + " Universally quantified conditions / "
+            "effects are not part of the reported grounding and are not compared. Known finding RepeatedFluentArg.",
+    "technique": "trace validation of the grounded literal / effect / expression sets and typed call against substitution defined "
+                 "in the TLA+ spec, on TLC-enumerated and random (action, call) pairs",
+    "text": "For every (action, call) pair the reported grounded precondition literals (untyped and typed), add/delete sets per "
+            "effect group, grounded numeric expressions and the typed call are judged by TLC against position-wise "
+            "substitution of the call's arguments into the AST the spec read from the same text."}
 NOT_YET = {}
 
 
